@@ -2,7 +2,7 @@
    category. Statements only; proofs in proofs/Status_p.v. *)
 From Coq Require Import ZArith QArith List Bool.
 From EosV Require Import lib.AList gen.T_eos model.World model.Status model.Engine model.Ops model.Switches model.Wf
-     proofs.Status_p proofs.Owner_p proofs.Cinv_p proofs.Runs_p proofs.RunsC_p proofs.RunsD_p.
+     proofs.Status_p proofs.Owner_p proofs.Cinv_p proofs.Runs_p proofs.RunsC_p proofs.RunsK_p proofs.RunsD_p.
 Import ListNotations.
 Open Scope Z_scope.
 
